@@ -65,11 +65,11 @@ Definition in_window (c : conv) (v : f32) : bool :=
 
 Definition convert (q : quant) (v : f32) : quant * conv :=
   let c := q_cached q in
-  if bit_allowed (q_allowed q) (note_new (c_note c mod 12)) && in_window c v then
-    let c' := mkConv (c_note c) (c_stair c) (fsub v (c_stair c)) in
+  let v' := clamp_vin v in
+  if bit_allowed (q_allowed q) (note_new (c_note c mod 12)) && in_window c v' then
+    let c' := mkConv (c_note c) (c_stair c) (fsub v' (c_stair c)) in
     (mkQuant c' (q_allowed q), c')
   else
-    let v' := clamp_vin v in
     let n := find_nearest_note (q_allowed q) v' in
     let st := fdiv (of_Z n) f_12 in
     let c' := mkConv n st (fsub v' st) in
